@@ -257,6 +257,15 @@ def run_case(c):
         for r in range(c['count']):
             m, n = int(rng.integers(1, 25)), int(rng.integers(1, 25))
             q0, q1 = h.rand_charges(rng, m, n, c['style'])
+            if r % 7 == 3:
+                # three labels -c, 0, +c in the cyclic order 0, +c, -c (every descent is a step of 2c, every ascent a step of c)
+                o0, o1 = int(rng.integers(3)), int(rng.integers(3))
+                q0 = np.array([(0, 1, -1)[(i + o0) % 3] for i in range(m)]); q1 = np.array([(0, 1, -1)[(i + o1) % 3] for i in range(n)])
+                # labels of both signs close to the ends of the integer range (differences of neighbouring labels overflow), also as 32-bit arrays
+                if (r // 7) % 2:
+                    q0 = (np.asarray(q0, dtype=np.int64) * 5 * 10 ** 18).astype(np.int64); q1 = (np.asarray(q1, dtype=np.int64) * 5 * 10 ** 18).astype(np.int64)
+                else:
+                    q0 = (np.asarray(q0, dtype=np.int64) * 2 * 10 ** 9).astype(np.int32); q1 = (np.asarray(q1, dtype=np.int64) * 2 * 10 ** 9).astype(np.int32)
             if r % 7 == 5:
                 # charges are 64-bit integers: labels beyond 2^53 (not representable as doubles) are as good as small ones
                 off = (2 ** 53 + 1, -(2 ** 53) - 3, 2 ** 62 - 7)[r % 3]
